@@ -67,6 +67,31 @@ func ModelSafe(u *Universe, d *Desc, v reflect.Value) bool {
 			}
 		}
 		return true
+	case KCustom:
+		return ModelSafe(u, d.Elem, v)
+	case KBinTree:
+		vals := v.FieldByName("Values")
+		for i := 0; i < vals.Len(); i++ {
+			if !ModelSafe(u, d.Elem, vals.Index(i)) {
+				return false
+			}
+		}
+		return true
+	case KDictAugE, KDictAug:
+		m := v
+		if d.Kind == KDictAugE {
+			if !ModelSafe(u, d.Elem3, v.FieldByName("extra")) {
+				return false
+			}
+			m = access(v.FieldByName("m"))
+		}
+		vals := access(m.FieldByName("values"))
+		for i := 0; i < vals.Len(); i++ {
+			if !ModelSafe(u, d.Elem2, vals.Index(i)) {
+				return false
+			}
+		}
+		return true
 	case KEncErr, KOpaque, KUnsupported:
 		return false
 	}
